@@ -14,6 +14,22 @@ from mako import filters
 from mako import util
 
 
+def _filter_identifiers(filter_args):
+    """the names a filter list takes from its surroundings: every name in it
+    but the built-in flags it uses as filters (a variable that happens to be
+    called ``x`` or ``n`` may still be an argument of a filter call)."""
+
+    flags = set()
+    for arg in filter_args.args:
+        m = re.match(r"(.+?)(\(.*\))", arg)
+        ident = m.group(1) if m else arg
+        if re.match(r"decode\..+", ident):
+            flags.add("decode")
+        elif ident in filters.DEFAULT_ESCAPES:
+            flags.add(ident)
+    return filter_args.undeclared_identifiers.difference(flags)
+
+
 class Node:
     """base class for a Node in the parse tree."""
 
@@ -203,9 +219,7 @@ class Expression(Node):
     def undeclared_identifiers(self):
         # TODO: make the "filter" shortcut list configurable at parse/gen time
         return self.code.undeclared_identifiers.union(
-            self.escapes_code.undeclared_identifiers.difference(
-                filters.DEFAULT_ESCAPES
-            )
+            _filter_identifiers(self.escapes_code)
         ).difference(self.code.declared_identifiers)
 
     def __repr__(self):
@@ -444,9 +458,9 @@ class TextTag(Tag):
         )
 
     def undeclared_identifiers(self):
-        return self.filter_args.undeclared_identifiers.difference(
-            filters.DEFAULT_ESCAPES.keys()
-        ).union(self.expression_undeclared_identifiers)
+        return _filter_identifiers(self.filter_args).union(
+            self.expression_undeclared_identifiers
+        )
 
 
 class DefTag(Tag):
@@ -505,11 +519,7 @@ class DefTag(Tag):
             )
         return (
             set(res)
-            .union(
-                self.filter_args.undeclared_identifiers.difference(
-                    filters.DEFAULT_ESCAPES.keys()
-                )
-            )
+            .union(_filter_identifiers(self.filter_args))
             .union(self.expression_undeclared_identifiers)
             .difference(self.function_decl.allargnames)
         )
@@ -569,11 +579,9 @@ class BlockTag(Tag):
         return self.body_decl.allargnames
 
     def undeclared_identifiers(self):
-        return (
-            self.filter_args.undeclared_identifiers.difference(
-                filters.DEFAULT_ESCAPES.keys()
-            )
-        ).union(self.expression_undeclared_identifiers)
+        return _filter_identifiers(self.filter_args).union(
+            self.expression_undeclared_identifiers
+        )
 
 
 class CallTag(Tag):
